@@ -264,4 +264,213 @@ theorem entropyFromWords_eq (H : Bytes → Bytes) (hH : HashOK H) (ws : List Byt
       simp only [this, ↓reduceIte, pure, Except.pure]
       split <;> simp_all
 
+/-! ### EntropyFromMnemonic = Spec.decode ∘ fields -/
+
+theorem legal_words_cs (n : Nat) (h : Spec.Bip39.legalWordCount n = true) : ∃ cs, 4 ≤ cs ∧ cs ≤ 8 ∧ n = 3 * cs := by
+  simp only [Spec.Bip39.legalWordCount, Bool.or_eq_true, beq_iff_eq] at h
+  rcases h with (((h | h) | h) | h) | h
+  · exact ⟨4, by omega, by omega, h⟩
+  · exact ⟨5, by omega, by omega, h⟩
+  · exact ⟨6, by omega, by omega, h⟩
+  · exact ⟨7, by omega, by omega, h⟩
+  · exact ⟨8, by omega, by omega, h⟩
+
+theorem legal_words_iff (n : Nat) : Spec.Bip39.legalWordCount n = true ↔ ¬ (n % 3 ≠ 0 ∨ n < 12 ∨ n > 24) := by
+  simp only [Spec.Bip39.legalWordCount, Bool.or_eq_true, beq_iff_eq]
+  omega
+
+theorem allListed_iff (ws : List Bytes) : Spec.Bip39.allListed ws = true ↔ ∀ w ∈ ws, w ∈ wordList := by
+  unfold Spec.Bip39.allListed
+  rw [List.all_eq_true, wordList_eq_spec]
+  constructor
+  · intro h w hw; exact List.contains_iff_mem.mp (h w hw)
+  · intro h w hw; exact List.contains_iff_mem.mpr (h w hw)
+
+/-- how the wallet reports the spec's three reasons to refuse in `EntropyFromMnemonic` -/
+def errOfReject : Spec.Bip39.Reject → Err
+  | .length => .invalid
+  | .word => .word
+  | .checksum => .checksum
+
+/-- the same in `MnemonicToByteArray` / `NewSeedWithErrorChecking` (one class for length and word) -/
+def errOfRejectArr : Spec.Bip39.Reject → Err
+  | .length => .invalid
+  | .word => .invalid
+  | .checksum => .checksum
+
+theorem spec_decode_listed (H : Bytes → Bytes) (hH : HashOK H) (ws : List Bytes) (cs : Nat) (h4 : 4 ≤ cs)
+    (h8 : cs ≤ 8) (hl : ws.length = 3 * cs) (h : ∀ w ∈ ws, w ∈ wordList) :
+    Spec.Bip39.decode H ws =
+      if decNat ws % 2 ^ cs = csVal (H (candidate ws cs)) cs then .ok (candidate ws cs) else .error .checksum := by
+  have hleg : Spec.Bip39.legalWordCount ws.length = true := by
+    rw [legal_words_iff]; omega
+  unfold Spec.Bip39.decode
+  rw [hleg, (allListed_iff ws).mpr h, spec_checksumOK H hH ws cs h8 hl h, spec_entropyOf ws cs hl h]
+  by_cases hc : decNat ws % 2 ^ cs = csVal (H (candidate ws cs)) cs <;> simp [hc]
+
+theorem entropyFromMnemonic_eq_spec (H : Bytes → Bytes) (hH : HashOK H) (s : Bytes) :
+    entropyFromMnemonic H s =
+      match Spec.Bip39.decode H (fields s) with
+      | .ok e => .ok e
+      | .error r => .error (errOfReject r) := by
+  unfold entropyFromMnemonic splitMnemonicWords
+  simp only
+  by_cases hleg : Spec.Bip39.legalWordCount (fields s).length = true
+  · rw [if_neg ((legal_words_iff _).mp hleg)]
+    simp only
+    obtain ⟨cs, h4, h8, hl⟩ := legal_words_cs _ hleg
+    by_cases hall : ∀ w ∈ fields s, w ∈ wordList
+    · rw [entropyFromWords_eq H hH _ cs h4 h8 hl hall, spec_decode_listed H hH _ cs h4 h8 hl hall]
+      split <;> rfl
+    · have hex : ∃ w ∈ fields s, w ∉ wordList := by
+        by_contra hcon
+        apply hall
+        intro w hw
+        by_contra hn
+        exact hcon ⟨w, hw, hn⟩
+      have hsp : Spec.Bip39.decode H (fields s) = .error .word := by
+        unfold Spec.Bip39.decode
+        have : Spec.Bip39.allListed (fields s) = false := by
+          cases hb : Spec.Bip39.allListed (fields s) with
+          | false => rfl
+          | true => exact absurd ((allListed_iff _).mp hb) hall
+        rw [hleg, this]; rfl
+      rw [hsp]
+      unfold entropyFromWords
+      rw [decodeLoop_err _ 0 hex]; rfl
+  · have hn : (fields s).length % 3 ≠ 0 ∨ (fields s).length < 12 ∨ (fields s).length > 24 := by
+      by_contra hc; exact hleg ((legal_words_iff _).mpr hc)
+    rw [if_pos hn]
+    have hsp : Spec.Bip39.decode H (fields s) = .error .length := by
+      unfold Spec.Bip39.decode
+      have : Spec.Bip39.legalWordCount (fields s).length = false := by
+        cases hb : Spec.Bip39.legalWordCount (fields s).length with
+        | false => rfl
+        | true => exact absurd hb hleg
+      rw [this]; rfl
+    rw [hsp]; rfl
+
+/-! ### IsMnemonicValid -/
+
+theorem isMnemonicValid_eq (s : Bytes) :
+    isMnemonicValid s = (Spec.Bip39.legalWordCount (fields s).length && Spec.Bip39.allListed (fields s)) := by
+  unfold isMnemonicValid
+  simp only
+  by_cases hleg : Spec.Bip39.legalWordCount (fields s).length = true
+  · rw [if_neg ((legal_words_iff _).mp hleg), hleg, Bool.true_and]
+    apply Bool.eq_iff_iff.mpr
+    rw [allListed_iff, List.all_eq_true]
+    constructor
+    · intro h w hw; exact (wordMapGet_isSome_iff w).mp (h w hw)
+    · intro h w hw; exact (wordMapGet_isSome_iff w).mpr (h w hw)
+  · have hn : (fields s).length % 3 ≠ 0 ∨ (fields s).length < 12 ∨ (fields s).length > 24 := by
+      by_contra hc; exact hleg ((legal_words_iff _).mpr hc)
+    rw [if_pos hn]
+    have : Spec.Bip39.legalWordCount (fields s).length = false := by
+      cases hb : Spec.Bip39.legalWordCount (fields s).length with
+      | false => rfl
+      | true => exact absurd hb hleg
+    rw [this]; rfl
+
+/-! ### MnemonicToByteArray -/
+
+theorem foldl_getD (ws : List Bytes) (b : Nat) (h : ∀ w ∈ ws, w ∈ wordList) :
+    ws.foldl (fun acc v => acc * 2048 + (wordMapGet v).getD 0) b = horner b (ws.map idx) := by
+  induction ws generalizing b with
+  | nil => rfl
+  | cons w ws ih =>
+    simp only [List.foldl_cons, List.map_cons, horner]
+    rw [wordMapGet_mem w (h w List.mem_cons_self)]
+    exact ih _ (fun x hx => h x (List.mem_cons_of_mem _ hx))
+
+theorem bitsToNat_replicate_false (k : Nat) : bitsToNat (List.replicate k false) = 0 := by
+  induction k with
+  | zero => rfl
+  | succ k ih => rw [List.replicate_succ, bitsToNat_cons, ih]; simp
+
+theorem spec_checksummedBytes (ws : List Bytes) (cs : Nat) (h8 : cs ≤ 8) (hl : ws.length = 3 * cs)
+    (h : ∀ w ∈ ws, w ∈ wordList) :
+    Spec.Bip39.checksummedBytes ws = padLeft (toBytesBE (decNat ws)) (4 * cs + 1) := by
+  obtain ⟨b1, b2⟩ := wordBits_spec ws h
+  unfold Spec.Bip39.checksummedBytes
+  have hlen : (List.replicate (8 - ws.length / 3) false ++ Spec.Bip39.wordBits ws).length = 8 * (4 * cs + 1) := by
+    rw [List.length_append, List.length_replicate, b1]; omega
+  obtain ⟨d1, d2⟩ := bytesOfBits_spec _ _ hlen
+  symm
+  apply padLeft_toBytesBE_eq _ _ _ d1
+  rw [d2, bitsToNat_append, bitsToNat_replicate_false, b2]; simp [decNat]
+
+theorem mnemonicToByteArray_eq_spec (H : Bytes → Bytes) (hH : HashOK H) (s : Bytes) (raw : Bool) :
+    mnemonicToByteArray H s raw =
+      match Spec.Bip39.decode H (fields s) with
+      | .ok e => .ok (if raw then e else Spec.Bip39.checksummedBytes (fields s))
+      | .error r => .error (errOfRejectArr r) := by
+  unfold mnemonicToByteArray
+  rw [fields_trimSpace, isMnemonicValid_eq]
+  simp only
+  by_cases hleg : Spec.Bip39.legalWordCount (fields s).length = true
+  · by_cases hall : Spec.Bip39.allListed (fields s) = true
+    · obtain ⟨cs, h4, h8, hl⟩ := legal_words_cs _ hleg
+      have hmem := (allListed_iff _).mp hall
+      obtain ⟨c1, c2⟩ := candidate_spec (fields s) cs hl hmem
+      rw [hleg, hall, spec_decode_listed H hH _ cs h4 h8 hl hmem, foldl_getD _ 0 hmem]
+      have e1 : (fields s).length * 11 % 32 = cs := by omega
+      have e2 : ((fields s).length * 11 - cs) / 8 + 1 = 4 * cs + 1 := by omega
+      have e3 : 4 * cs + 1 - (4 * cs + 1) % 4 = 4 * cs := by omega
+      simp only [e1, e2, e3, Gen.Bip39.bigTwo, Bool.and_self, Bool.not_true, Bool.false_eq_true, ↓reduceIte]
+      change (do
+        let withChecksum ← addChecksum H (candidate (fields s) cs)
+        if (!compareByteSlices (padLeft (toBytesBE (decNat (fields s))) (4 * cs + 1))
+            (padLeft withChecksum (4 * cs + 1))) = true then throw Err.checksum
+        if raw = true then pure (candidate (fields s) cs)
+        else pure (padLeft (toBytesBE (decNat (fields s))) (4 * cs + 1))) = _
+      have hq : (candidate (fields s) cs).length / 4 = cs := by omega
+      rw [addChecksum_eq H hH _ (by omega), hq, c2]
+      simp only [bind, Except.bind, pure, Except.pure]
+      have hc := csVal_lt (H (candidate (fields s) cs)) cs h8
+      by_cases hck : decNat (fields s) % 2 ^ cs = csVal (H (candidate (fields s) cs)) cs
+      · have hN : decNat (fields s) / 2 ^ cs * 2 ^ cs + csVal (H (candidate (fields s) cs)) cs
+            = decNat (fields s) := by
+          rw [← hck]; exact Nat.div_add_mod' _ _
+        rw [hN, if_pos hck]
+        simp only [compareByteSlices, beq_self_eq_true, Bool.and_self, Bool.not_true, Bool.false_eq_true,
+          ↓reduceIte]
+        cases raw
+        · simp only [Bool.false_eq_true, ↓reduceIte]
+          rw [spec_checksummedBytes _ cs h8 hl hmem]
+        · rfl
+      · rw [if_neg hck]
+        have hne : compareByteSlices (padLeft (toBytesBE (decNat (fields s))) (4 * cs + 1))
+            (padLeft (toBytesBE (decNat (fields s) / 2 ^ cs * 2 ^ cs + csVal (H (candidate (fields s) cs)) cs))
+              (4 * cs + 1)) = false := by
+          cases hb : compareByteSlices (padLeft (toBytesBE (decNat (fields s))) (4 * cs + 1))
+            (padLeft (toBytesBE (decNat (fields s) / 2 ^ cs * 2 ^ cs + csVal (H (candidate (fields s) cs)) cs))
+              (4 * cs + 1)) with
+          | false => rfl
+          | true =>
+            exfalso
+            simp only [compareByteSlices, Bool.and_eq_true, beq_iff_eq] at hb
+            have := congrArg ofBytesBE hb.2
+            rw [ofBytesBE_padLeft, ofBytesBE_padLeft, ofBytesBE_toBytesBE, ofBytesBE_toBytesBE] at this
+            apply hck
+            have h2 : (decNat (fields s) / 2 ^ cs * 2 ^ cs + csVal (H (candidate (fields s) cs)) cs) % 2 ^ cs
+                = csVal (H (candidate (fields s) cs)) cs := by
+              rw [Nat.mul_add_mod_of_lt hc]
+            rw [← this] at h2; exact h2
+        rw [hne]; rfl
+    · have hf : Spec.Bip39.allListed (fields s) = false := by
+        cases hb : Spec.Bip39.allListed (fields s) with
+        | false => rfl
+        | true => exact absurd hb hall
+      have hsp : Spec.Bip39.decode H (fields s) = .error .word := by
+        unfold Spec.Bip39.decode; rw [hleg, hf]; rfl
+      rw [hleg, hf, hsp]; rfl
+  · have hf : Spec.Bip39.legalWordCount (fields s).length = false := by
+      cases hb : Spec.Bip39.legalWordCount (fields s).length with
+      | false => rfl
+      | true => exact absurd hb hleg
+    have hsp : Spec.Bip39.decode H (fields s) = .error .length := by
+      unfold Spec.Bip39.decode; rw [hf]; rfl
+    rw [hf, hsp]; rfl
+
 end MW.Lemmas.Bip39Decode
